@@ -202,6 +202,8 @@ def e1_roots(tier):
                     c["explore"] = 0
                     c["tag"]["special"] = "exact-ties"
                     out.append(c)
+    from .. import cover
+    out += cover.roots_for(tier, monitors=["tr", "centre"])
     for c in out:
         if "centre" not in c["monitors"]:
             c["monitors"] = c["monitors"] + ["centre"]
@@ -261,6 +263,11 @@ def e1_oracle(rec, table=None):
                              "what": f"after set_best_index #{j + 1}: points {better} tie the centre {b} exactly in "
                                      f"merit ({mmin!r}) and have a smaller violation ({[r[k] for k in better]} < {r[b]})"})
                 break
+    for k_geo, best in rec.notes.get("geo_targets", []):
+        if k_geo == best:
+            viol.append({"key": "run:centre-chosen-for-replacement:geometry",
+                         "what": "the geometry-improvement step was asked to replace the trust-region centre"})
+            break
     for k_rm, best, with_new in rec.notes.get("removals", []):
         if with_new and k_rm == best:
             viol.append({"key": "run:centre-chosen-for-replacement",
